@@ -20,6 +20,7 @@ RULE = (
     'freshly generated models / library models (pk, erlotinib) and observes after every step. Non-trivial: an '
     'administration change after another configuration call, or a copy followed by a mutation. Distinct = distinct '
     '(model, operation sequence).')
+RULE += (' ' + 'Added letter RP: the myokit.Protocol form of set_dosing_regimen with one protocol object per model that gets a further event scheduled and is passed again.')
 ASSUMPTIONS = [
     'reference integrator vf/simshim.py stands in for myokit.Simulation',
     'oracle: a freshly constructed model to which the net configuration (last writer wins; set_outputs / '
